@@ -284,24 +284,24 @@ def build(ctx):
                 for (n, b) in chunk:
                     for arm in range(9):
                         hs.append(P.Harness("flat_%s_%s_arm%d_%s_cxx%s" % (n, b, arm, mode, std), flat_harness(u, n, b, maxsz, maxbl, depth), [u], unwind=max(maxsz, depth) + 2,
-                                            backends=["minisat", "z3"], cap=ctx.q(300, 900), defines=["VERIF_WHICH=%d" % arm],
+                                            backends=["minisat", "z3"], cap=ctx.q(600, 1200), defines=["VERIF_WHICH=%d" % arm],
                                             desc="flat group numInGroup=%s blockLength=%s, arm %d of {0 iterator op sequences, 1 comparisons+distance, 2 it[n], 3 (it+n)-n, 4 begin/end/size/size_bytes, 5 operator[]/front/back, 6 range-for, 7 resize frame, 8 clear frame}" % (n, b, arm),
                                             bounds={"size": "0..%d" % maxsz, "blockLength": "0..%d" % maxbl, "depth": depth, "std": "c++" + std, "build": mode}))
                 for (n, b) in chunk:
-                    hs.append(P.Harness("flat_%s_%s_wide_%s_cxx%s" % (n, b, mode, std), wide_harness(u, n, b), [u], unwind=4, backends=["z3", "minisat", "kissat"], cap=ctx.q(300, 900),
+                    hs.append(P.Harness("flat_%s_%s_wide_%s_cxx%s" % (n, b, mode, std), wide_harness(u, n, b), [u], unwind=4, backends=["z3", "minisat", "kissat"], cap=ctx.q(600, 1200),
                                         extra_flags=["--no-standard-checks"],
                                         desc="flat group numInGroup=%s blockLength=%s: operator[] / begin()[i] / back() addresses with header values over the whole type range" % (n, b),
                                         bounds={"blockLength": "full %s range (< 2^47)" % b, "numInGroup": "full %s range" % n, "i": "< 4", "std": "c++" + std, "build": mode}))
                 f12b = "F12b" in ctx.open
                 for (n, b) in chunk:
                     if f12b and (n, b, mode, std) == ("uint8", "uint8", "checked", "17"):
-                        hs.append(P.Harness("flat_uint8_uint8_wideidx2_twin_F12b_cxx17", wide_index_harness(u, n, b, twin=True), [u], unwind=4, backends=["z3", "minisat"], cap=ctx.q(300, 900),
+                        hs.append(P.Harness("flat_uint8_uint8_wideidx2_twin_F12b_cxx17", wide_index_harness(u, n, b, twin=True), [u], unwind=4, backends=["z3", "minisat"], cap=ctx.q(600, 1200),
                                             extra_flags=["--no-standard-checks"], defines=["VERIF_WHICH=2"], expect="refuted", witness=False, meta={"finding": "F12b"},
                                             desc="twin of known finding F12b: end()-begin() for numInGroup > 127 (uint8)"))
                     if ctx.quick and (n, b) not in WIDE_QUICK: continue
                     if not ctx.quick and mode != "checked": continue
                     for arm in range(4):
-                        hs.append(P.Harness("flat_%s_%s_wideidx%d_%s_cxx%s" % (n, b, arm, mode, std), wide_index_harness(u, n, b, excl_f12b=f12b), [u], unwind=4, backends=["z3", "minisat", "kissat"], cap=ctx.q(300, 900),
+                        hs.append(P.Harness("flat_%s_%s_wideidx%d_%s_cxx%s" % (n, b, arm, mode, std), wide_index_harness(u, n, b, excl_f12b=f12b), [u], unwind=4, backends=["z3", "minisat", "kissat"], cap=ctx.q(600, 1200),
                                             extra_flags=["--no-standard-checks"], defines=["VERIF_WHICH=%d" % arm],
                                             desc="flat group numInGroup=%s blockLength=%s, arm %d of {0 operator[](i), 1 back(), 2 size/begin/end, 3 distance+comparisons of (i,j)} with numInGroup and the indices over the whole type range" % (n, b, arm),
                                             bounds={"blockLength": "0..65535 (of %s)" % b, "numInGroup": "full %s range (<= 2^32-1)" % n, "i,j,k": "any index inside the group", "std": "c++" + std, "build": mode}))
@@ -312,7 +312,7 @@ def build(ctx):
             un = ctx.lower("c12n", cpp([], [n_ if n_ == b_ else "%s_%s" % (n_, b_) for (n_, b_) in npairs]), std=std, mode=mode, incs=[inc])
             for (n, b) in npairs:
                 for arm in range(5):
-                    hs.append(P.Harness("nested_%s_%s_arm%d_%s_cxx%s" % (n, b, arm, mode, std), nested_harness(un, n, maxsz, b), [un], unwind=maxsz + 3, backends=["minisat", "z3"], cap=ctx.q(300, 900),
+                    hs.append(P.Harness("nested_%s_%s_arm%d_%s_cxx%s" % (n, b, arm, mode, std), nested_harness(un, n, maxsz, b), [un], unwind=maxsz + 3, backends=["minisat", "z3"], cap=ctx.q(600, 1200),
                                         defines=["VERIF_WHICH=%d" % arm],
                                         desc="nested group (numInGroup %s / blockLength %s, entries with a <data> member), arm %d of {0 forward iteration addresses, 1 size/empty/front/size_bytes, 2 resize frame, 3 clear frame, 4 cursor_range walk addresses + final cursor}" % (n, b, arm),
                                         bounds={"size": "0..%d" % maxsz, "blockLength": "1..3", "data_len": "0..2", "std": "c++" + std, "build": mode}))
@@ -320,7 +320,7 @@ def build(ctx):
             if std == "17" and mode == "checked":
                 for (n, b) in [("uint8", "uint16"), ("uint8", "uint64"), ("uint16", "uint16")] if ctx.quick else [("uint8", "uint16"), ("uint8", "uint32"), ("uint8", "uint64"), ("uint16", "uint16"), ("uint16", "uint32")]:
                     for arm in (0, 1, 4):
-                        hs.append(P.Harness("nested_%s_%s_wide_arm%d_%s_cxx%s" % (n, b, arm, mode, std), nested_harness(un, n, 2, b, wide=True), [un], unwind=5, backends=["minisat", "kissat"], cap=ctx.q(300, 900),
+                        hs.append(P.Harness("nested_%s_%s_wide_arm%d_%s_cxx%s" % (n, b, arm, mode, std), nested_harness(un, n, 2, b, wide=True), [un], unwind=5, backends=["minisat", "kissat"], cap=ctx.q(600, 1200),
                                             defines=["VERIF_WHICH=%d" % arm], extra_flags=["--no-standard-checks"], meta={"big_unwind": 700},
                                             desc="nested group (numInGroup %s / blockLength %s): wire blockLength 2 or 259 (beyond the uint8 range), arm %d of {0 forward iteration, 1 size_bytes/front, 4 cursor_range walk}" % (n, b, arm),
                                             bounds={"size": "0..2", "blockLength": "{2, 259}", "data_len": "0..2", "std": "c++" + std, "build": mode}))
